@@ -367,10 +367,7 @@ func (e *l2Env) coSubscribers(p coPlan) {
 	}
 
 	// D. a burst of blocks, announced in chunks.
-	hold := &coHold{}
-	for _, pr := range e.w.Peers {
-		pr.Mutate = hold.mutate
-	}
+	hold := e.hold
 	for _, s := range subs {
 		if s.plan.Kind == "rescan" && s.plan.Read == 0 && !s.cancelled {
 			hold.set(true)
